@@ -18,6 +18,7 @@ type houdiniOb struct {
 type fnState struct {
 	cands      map[int][]*candidate // by loop ordinal
 	knownHeaps map[string]string
+	knownLocals map[string]string
 }
 
 func (c *FnCtx) candidatesFor(li *loopInfo) []*candidate {
@@ -169,9 +170,23 @@ func (c *FnCtx) genCandidates(li *loopInfo) []*candidate {
 			// weaker: all pre-existing objects except those the parameters point to
 			var ex []string
 			for _, p := range c.fn.Params {
-				switch types.Unalias(p.Type()).Underlying().(type) {
-				case *types.Pointer, *types.Slice, *types.Map:
-					ex = append(ex, p.Name())
+				switch tt := types.Unalias(p.Type()).Underlying().(type) {
+				case *types.Pointer:
+					if _, isStruct := types.Unalias(tt.Elem()).Underlying().(*types.Struct); isStruct {
+						if strings.HasPrefix(h, "HF_"+typeKey(tt.Elem())+"_") {
+							ex = append(ex, p.Name())
+						}
+					} else if h == heapCell(tt.Elem()) {
+						ex = append(ex, p.Name())
+					}
+				case *types.Slice:
+					if h == heapElem(tt.Elem()) {
+						ex = append(ex, p.Name())
+					}
+				case *types.Map:
+					if h == heapMapDom(tt) || h == heapMapVal(tt) || h == heapMapLen(tt) {
+						ex = append(ex, p.Name())
+					}
 				}
 			}
 			if len(ex) > 0 {
